@@ -21,7 +21,7 @@ class C08(HistoryCheck):
     PROP = "C08"
     LEVEL = "exploration"
     RUNS = {"quick": 1500, "thorough": 30000}
-    PROFILE = {"allow_frozen": False, "allow_class_dnc": False, "allow_attr_dnc": False, "allow_init_false": False,
+    PROFILE = {"allow_frozen": False, "allow_class_dnc": False, "allow_attr_dnc": False, "allow_init_false": False, "allow_foreign_defaults": True,
                "allow_preparers": True, "allow_item_preparers": True, "allow_invalidated_by": True}
     OPGEN = {"p_bad": 0.1, "p_inplace": 0.6, "p_nested_target": 0.25, "exclude_fns": ["ident", "missing", "rev"],
              "weights": {"new": 4, "scalar": 6, "element": 8, "toplevel": 3, "set": 4, "del": 3, "get": 0.5,
